@@ -53,6 +53,18 @@ CHECKS = {
                 text="selected substances absent, all others identical terms, volume recomputed, wells outside the slice "
                      "identical, and for recipe steps get_substance_used / get_container_flows report exactly the "
                      "removed amounts (per well for plates)."),
+    'C05': dict(engine=E1, design='§4 C05',
+                technique="symbolic execution of Container.create_solution (exact solve contract); constraints re-checked on the result and feasibility vs an independent Cramer oracle, z3",
+                text="for 1-2 (thorough 3) solutes, pure or container solvents, every pair of (concentration, quantity, "
+                     "total) and 15 concentration spellings: key set, positivity, every stated concentration / quantity / "
+                     "total met by the returned contents, container solvent depleted by a uniform aliquot with nothing "
+                     "lost; acceptance iff the independent linear system has a unique positive solution."),
+    'C12': dict(engine=E1, design='§4 C12',
+                technique="symbolic execution of Container.create_solution_from (exact solve contract); result re-checked against definitions and an independent 2x2 oracle, z3",
+                text="requested total and concentration met, new solution = uniform aliquot of the stock (+ of the solvent "
+                     "container) + pure solvent, residuals + new = inputs + added solvent, refusal iff the independent "
+                     "2x2 system has no solution with 0 <= stock share <= 1 and solvent >= 0; 8 stock/solvent variants x "
+                     "11 concentration spellings x 6 quantity units."),
     'C02': dict(engine=E1, design='§4 C02',
                 technique="symbolic execution of Container.transfer/Plate.transfer with z3 (QF_NRA/LRA), differential vs independent unit table",
                 text="size of the aliquot (in the unit of q), uniformity (cross-multiplied ratios) and destination gain "
